@@ -963,19 +963,19 @@ def subchecks(tier):
     gh.append(dict(P.GENERIC_GEO, bamp=[0.0, -1.1, 0.4], form="components",
                    omit=True, g4first=False, st_first=True))
     return [
-        Sub("maths3", maths3_case(), test_maths3, 800 if q else 20000,
+        Sub("maths3", maths3_case(), test_maths3, 800 if q else 15000,
             generic=g3, shards=8 if q else 16),
-        Sub("maths4", maths4_case(), test_maths4, 800 if q else 20000,
+        Sub("maths4", maths4_case(), test_maths4, 800 if q else 15000,
             generic=g4, shards=8 if q else 16),
-        Sub("metric", core_case(), test_metric, 560 if q else 16000,
+        Sub("metric", core_case(), test_metric, 560 if q else 12000,
             generic=generic_core(), shards=8 if q else 16),
-        Sub("curv", core_case(), test_curv, 560 if q else 16000,
+        Sub("curv", core_case(), test_curv, 560 if q else 12000,
             generic=generic_core(), shards=8 if q else 16),
-        Sub("helpers", helpers_case(), test_helpers, 400 if q else 12000,
+        Sub("helpers", helpers_case(), test_helpers, 400 if q else 8000,
             generic=gh, shards=8 if q else 16),
-        Sub("riemann", riemann_case(), test_riemann, 240 if q else 6000,
+        Sub("riemann", riemann_case(), test_riemann, 240 if q else 4000,
             generic=gr, shards=8 if q else 16),
         Sub("safe_division", sd_case(), test_safe_division,
-            2400 if q else 60000, generic=sd_generic(),
+            2400 if q else 40000, generic=sd_generic(),
             shards=8 if q else 16),
     ]
